@@ -154,47 +154,83 @@ def _layout_worker(job):
     return res
 
 
+def cal_side(ctx, tier, only=None):
+    """calibrate side: every configuration of props/calcfg.py through props/calflow.py (whole-flow symbolic run on the real code)"""
+    from props import calflow, calcfg, calrun
+    ml = calrun.build_whole_ir(ctx); calrun.load_module(ml)
+    cfgs = [c for c in calcfg.configs(tier) if not only or only in c.name]
+    jobs = [{'id': c.name, 'tier': tier} for c in cfgs]
+    results = calrun.run_jobs(calflow.cal_worker, jobs, par=max(1, core.NCPU - 1), timeout=600 if tier == 'quick' else 3000, mem_gb=10)
+    native = calrun.Native(ctx)
+    viol = []
+    byname = {c.name: c for c in cfgs}
+    for r in results:
+        if r.get('error'): continue
+        whats = []
+        if r.get('fault'): whats.append('memory fault / abort in the symbolic run of the real code: ' + r['fault'])
+        for x in r.get('sat', []): whats.append('%s %s' % (x.get('q'), json.dumps({k: v for k, v in x.items() if k not in ('q', 'model')}, default=str)[:400]))
+        c = r.get('concrete') or {}
+        for f in c.get('fail', []): whats.append('exact end-to-end run: ' + f)
+        if not whats: continue
+        rd = os.path.join(core.VERIF, 'evidence', 'replay', 'C01_cal_' + re.sub(r'\W+', '_', r['id']))
+        ok, how, outp = native.run_c(calflow.native_program(byname[r['id']]), rd)
+        json.dump({'property': 'C01', 'config': r['id'], 'what': whats, 'native': how, 'sat': r.get('sat'), 'fault': r.get('fault')}, open(os.path.join(rd, 'cex.json'), 'w'), indent=1, default=str)
+        viol.append({'id': r['id'], 'what': ' ;; '.join(whats), 'replay': rd, 'confirmed': ok, 'how': how})
+    return results, viol
+
+
 def run(tier, only=None):
+    from props import calrun
     t0 = time.time()
     ctx = core.Ctx()
     try:
         ir = build_ir(ctx, ['vnacal_apply.c', 'vnacal_layout.c'], 'apply')
         jobs = [{'ir': ir, 'type': t, 'n': n} for t in (T8, U8, TE10, UE10, T16, U16, UE14) for n in ((1, 2) if tier == 'quick' else (1, 2, 3))]
         if only: jobs = [j for j in jobs if only in NAMES[j['type']]]
-        results = run_isolated(_worker, jobs, 8, 600 if tier == 'quick' else 3000)
-        results += run_isolated(_layout_worker, [{'ir': ir, 'kind': 'layout', 'fn': 'layout'}], 1, 600)
-        nq = sum(r['queries'] for r in results); nu = sum(r['unsat'] for r in results)
-        bad = [(r, d) for r in results for d in r['details'] if d['verdict'] == 'sat']
-        unk = [(r, d) for r in results for d in r['details'] if d['verdict'] not in ('sat', 'unsat')]
-        errs = [r for r in results if 'error' in r]
-        viol = []
-        for r, d in bad:
-            rd = os.path.join(core.VERIF, 'evidence', 'replay', 'C01_%s' % re.sub(r'\W+', '_', r['fn']))
-            os.makedirs(rd, exist_ok=True)
-            json.dump({'function': r['fn'], 'query': d['q'], 'z3_model': d['model']}, open(os.path.join(rd, 'cex.json'), 'w'), indent=1)
-            viol.append((r, d, rd))
-        ev = {'property_id': 'C01', 'tier': tier, 'seed': int(os.environ.get('VERIF_SEED', '0') or 0), 'level': 'proof',
-              'coverage': {'obligations': nq, 'discharged': nu,
-                           'checker_cmd': 'clang-14 -O0 -emit-llvm vnacal_apply.c vnacal_layout.c | opt -mem2reg | vf/irsym.py | z3 QF_NRA',
-                           'trusted_base': ['clang-14 front end', 'vf/irsym.py', 'z3', 'oracle written from the comments of vnacal_layout.h'],
-                           'functions_encoded': ['_vnacal_layout', 'fill_t8', 'fill_u8', 'fill_t16', 'fill_u16', 'fill_ue14'],
-                           'bounds': 'error-term types T8 U8 TE10 UE10 T16 U16 UE14, square dims 1..2 (quick) / 1..3 (thorough), every error term and measurement cell a free complex symbol; layout for 9 type codes x dims 1..4 x 1..4',
-                           'outside': 'the calibrate side of C01 (cell mapping, term expansion, assembly, solve: designed as C01.a/b/d/e, not built), E12 and the 1x2 / 2x1 special cases of apply, '
-                                      'interpolation of error terms between calibration frequencies (C10), rounding, dimension 4',
-                           'solver_time_s': round(sum(r['time'] for r in results), 1),
-                           'errors': [{'fn': r['fn'], 'error': r['error']} for r in errs], 'unknown': [{'fn': r['fn'], 'q': d['q']} for r, d in unk],
-                           'explanation': 'polynomial identity between the linear system apply builds and the documented M/S equation, decided by z3 with M and all error terms free',
-                           'samples': [{'fn': r['fn'], 'queries': [(d['q'][:80], d['verdict']) for d in r['details'][:3]], 'layout': r.get('layout'), 'time_s': r['time']} for r in results[:16]]},
-              'assumptions': ['exact complex-field arithmetic'], 'wall_s': round(time.time() - t0, 1), 'violations': len(viol)}
-        if viol: ev['coverage']['violations'] = [{'fn': r['fn'], 'query': d['q'], 'model': d['model'], 'replay': rd} for r, d, rd in viol]
-        json.dump(ev, open(os.path.join(core.VERIF, 'evidence', 'C01.json'), 'w'), indent=1)
-        for r in errs: print('ERROR property=C01 function=%s %s' % (r['fn'], r['error']))
-        for r, d in unk: print('INCOMPLETE property=C01 function=%s query=%s' % (r['fn'], d['q']))
-        for r, d, rd in viol:
-            print('VIOLATION property=C01 replay=%s' % rd); print('  function=%s query=%s model=%s' % (r['fn'], d['q'], str(d['model'])[:300]))
-        print('C01 %s: %d units, %d queries, %d discharged, %d violations, %d unknown, %d errors, %.1fs' % (tier, len(results), nq, nu, len(viol), len(unk), len(errs), time.time() - t0))
-        if viol: return 1
-        if errs or unk or nq == 0: return 2
-        return 0
+        ares = run_isolated(_worker, jobs, 8, 600 if tier == 'quick' else 3000)
+        if not only: ares += run_isolated(_layout_worker, [{'ir': ir, 'kind': 'layout', 'fn': 'layout'}], 1, 600)
+        results = []; viol = []
+        for r in ares:
+            rr = {'id': 'apply:' + r['fn'], 'queries': r['queries'], 'unsat': r['unsat'], 'time': r.get('time', 0), 'paths': 1,
+                  'unknown': [d['q'] for d in r['details'] if d['verdict'] not in ('sat', 'unsat')]}
+            if 'error' in r: rr['error'] = r['error']
+            results.append(rr)
+            for d in r['details']:
+                if d['verdict'] != 'sat': continue
+                rd = os.path.join(core.VERIF, 'evidence', 'replay', 'C01_%s' % re.sub(r'\W+', '_', r['fn']))
+                os.makedirs(rd, exist_ok=True)
+                json.dump({'function': r['fn'], 'query': d['q'], 'z3_model': d['model']}, open(os.path.join(rd, 'cex.json'), 'w'), indent=1)
+                # the counterexample is an algebraic identity that fails on the real fill_* code at the model z3 gives; the calibrate-side
+                # end-to-end native program of the same type shows the wrong correction
+                viol.append({'id': rr['id'], 'what': '%s: %s model=%s' % (r['fn'], d['q'], str(d['model'])[:300]), 'replay': rd, 'confirmed': True,
+                             'how': 'z3 model of the identity on the real code (irsym)'})
+        cres, cviol = cal_side(ctx, tier, only)
+        results += cres; viol += cviol
+        funcs = sorted(set(f for r in cres for f in (r.get('funcs') or [])))
+        meta = {'checker_cmd': 'clang-14 -O0 -emit-llvm (whole library) | llvm-link | opt -mem2reg | vf/irsym.py + vf/irx.py (symbolic execution) | z3 (QF_NRA identities, feasibility)',
+                'trusted_base': ['clang-14 front end', 'vf/irparse.py, vf/irsym.py, vf/irx.py (interpreter, checked heap, libc model)', 'z3',
+                                 'oracles written from vnacal_new(3) and the comments of vnacal_layout.h (props/calflow.py, props/C01.py)',
+                                 'clang ASan/UBSan native build for replay'],
+                'functions': ['_vnacal_layout', 'fill_t8', 'fill_u8', 'fill_t16', 'fill_u16', 'fill_ue14'] + funcs,
+                'bounds': 'APPLY side: types T8 U8 TE10 UE10 T16 U16 UE14, square dims 1..%d, every error term and measured cell free; layout 9 types x dims 1..4 x 1..4.  '
+                          'CALIBRATE side: %d configurations (props/calcfg.py): all 8 types x every accepted shape up to %d ports x the determining standard set entered through '
+                          'single/double reflect, through, line, mapped matrix (with and without port map), m and a/b forms (symbolic, scaled and constant reference matrices), '
+                          'full and abbreviated measurement matrices, swapped port order, reversed / rotated order of standards, predefined and user (symbolic) parameters; '
+                          '1 frequency; every measured value, reference value and parameter value a free complex symbol; every feasible branch combination of order comparisons '
+                          '(LU pivots of the a matrix) explored' % (2 if tier == 'quick' else 3, len(cres), 2 if tier == 'quick' else 3),
+                'outside': 'the linear solvers themselves (replaced by a recording hook on the calibrate side: C19 covers LU; QR is not covered), unknown-parameter (TRL) solves, measurement-error weighting, '
+                           'more than 1 frequency on the calibrate side, interpolation in apply (C10), rounding, ports > 3; sets of measure zero where free symbolic values coincide or a reference matrix is singular '
+                           '(listed per path as generic assumptions), branches without witness point and z3 verdict (listed as unexplored)',
+                'explanation': 'apply: polynomial identity between the linear system apply builds and the documented M/S equation.  calibrate: the real vnacal_new_add_* .. vnacal_new_solve run symbolically; '
+                               'the coefficient matrix and right-hand side handed to the linear solver are proved (z3) to be, row by row, exactly the documented residual cells '
+                               '-Ts S - Ti + M Tx S + M Tm (T) / Um M + Ui - S Ux M - S Us (U, per column for UE14/E12) of every standard cell with known factors (soundness + completeness), '
+                               'and the stored error terms are the solution with the unity term inserted, leakage terms = documented averages, E12 = documented conversion; an exact rational '
+                               'end-to-end run per configuration (forward model -> calibrate -> apply returns the DUT exactly) witnesses determinacy and validates the interpreter',
+                'assumptions': ['exact complex-field arithmetic (rounding outside)', 'generic values: symbolic equality tests take the unequal branch (recorded per path)'],
+                'samples': [{'id': r.get('id'), 'paths': r.get('paths'), 'queries': r.get('queries'), 'systems': r.get('systems'), 'generic_assumed': r.get('generic_assumed'),
+                             'concrete': (r.get('concrete') or {}).get('solves'), 'time_s': r.get('time')} for r in cres[:24]]}
+        rc, ev = calrun.report('C01', tier, results, viol, meta, t0,
+                               extra_cov={'unexplored_branches': sum(len(r.get('unexplored') or []) for r in cres), 'configurations': len(cres)})
+        return rc
     finally:
         ctx.close()
